@@ -57,7 +57,8 @@ def run_case(ns, mon, case):
         counters["forward_left_float64"] = 1
     g = gen.upstream(rng, out.shape, "normal") if out.shape else np.array(float(rng.uniform(0.5, 2.0)))
     try:
-        out.backward(ns.Tensor(np.asarray(g, dtype=np.float64)))
+        g_t = ns.Tensor(np.array(g, dtype=np.float64))           # one upstream-gradient tensor, handed to every sweep over this graph
+        out.backward(g_t)
     except Exception as e:
         import traceback
         return {"viol": [V("program:backward-raises", f"backward raised {type(e).__name__} on a program whose forward was accepted",
@@ -101,15 +102,24 @@ def run_case(ns, mon, case):
                           leaf=i, index=first, program=prog, leaf_values=[x.tolist() for x in xs] if sum(x.size for x in xs) < 80 else None))
     # a second sweep over the same graph: every recorded op contributes exactly once per call, so leaf gradients double
     try:
-        out.backward(ns.Tensor(np.asarray(g, dtype=np.float64)))
-        counters["second_sweeps"] = 1
-        for i, l in enumerate(prog["leaves"]):
-            if l["req"] and ts[i].grad is not None:
-                g2 = np.asarray(ts[i].grad.data, dtype=np.float64)
-                if not np.allclose(g2, 2 * grads[i], rtol=1e-9, atol=1e-9 * max(1.0, float(np.max(np.abs(grads[i]))) if grads[i].size else 1.0)):
-                    viol.append(V("program:second-backward-does-not-double-leaf-gradients", "after a second backward call on the same graph a leaf gradient is not twice the first",
-                                  leaf=i, program=prog))
-                    break
+        for sweep in (2, 3, 4):
+            out.backward(g_t)                    # the same tensor object again: the caller's upstream gradient is read, never kept or changed
+            counters["second_sweeps"] = 1
+            counters["repeated_sweeps_same_upstream_tensor"] = counters.get("repeated_sweeps_same_upstream_tensor", 0) + 1
+            bad_ = False
+            for i, l in enumerate(prog["leaves"]):
+                if l["req"] and ts[i].grad is not None:
+                    g2 = np.asarray(ts[i].grad.data, dtype=np.float64)
+                    if not np.allclose(g2, sweep * grads[i], rtol=1e-9, atol=1e-9 * max(1.0, float(np.max(np.abs(grads[i]))) if grads[i].size else 1.0)):
+                        viol.append(V("program:second-backward-does-not-double-leaf-gradients" if sweep == 2 else "program:repeated-backward-same-upstream-tensor:not-k-times",
+                                      f"after backward call number {sweep} on the same graph (same upstream-gradient tensor) a leaf gradient is not {sweep} times the first",
+                                      leaf=i, program=prog))
+                        bad_ = True
+                        break
+            if bad_:
+                break
+        if not np.array_equal(np.asarray(g_t.data, dtype=np.float64), np.asarray(g, dtype=np.float64)):
+            counters["upstream_tensor_changed_by_backward"] = 1          # (C11's statement; only counted here)
     except Exception as e:
         viol.append(V("program:second-backward-raises", f"a second backward call on the same graph raised {type(e).__name__}", error=str(e)[:200], program=prog))
     # construction-order metamorphism
